@@ -1450,6 +1450,12 @@ class NPShim:
     def sin(self, x): return self._uf("sin", x)
     def cos(self, x): return self._uf("cos", x)
 
+    def fill_diagonal(self, a, val):
+        if not isinstance(a, SymArray):
+            return self._np.fill_diagonal(a, val)
+        for i in range(min(a.shape)):
+            a[i, i] = val
+
     def multiply(self, a, b, out=None):
         va, vb = a.cells_list(), b.cells_list()
         res = [x * y for x, y in zip(va, vb)]
